@@ -128,6 +128,10 @@ func c13(ctx *Ctx) (*Outcome, error) {
 		root *sg.Schema
 		opts []string
 		sps  []spelling
+		// lib: a sibling document the root refers to without a file extension (the only way to write a cross-file
+		// reference identically in the JSON and the YAML spelling); it is written in the same format as the root
+		lib     *sg.Schema
+		libPath string
 	}
 	var jobs []*job
 	formats := []string{"json", "yamlblock", "yamlflow", "yamlbare"}
@@ -175,8 +179,23 @@ func c13(ctx *Ctx) (*Outcome, error) {
 				root = lib
 			}
 		}
+		var lib *sg.Schema
+		libPath := ""
+		if i%4 == 1 && len(root.Types) == 1 && root.Types[0] == "object" {
+			addr := &sg.Schema{Types: []string{"object"}, Props: []sg.Prop{{Name: "street", S: &sg.Schema{Types: []string{"string"}, MinLen: 1}}, {Name: "zip", S: &sg.Schema{Ref: "#/$defs/LibCode"}}}, Required: []string{"street"}}
+			code := &sg.Schema{Types: []string{"string"}, MaxLen: 8}
+			addr.Props[1].S.Target = code
+			lib = &sg.Schema{ID: "https://example.com/spelllib", Types: []string{"object"}, Props: []sg.Prop{{Name: "libRootProp", S: &sg.Schema{Types: []string{"integer"}}}},
+				Defs: []sg.Prop{{Name: "LibAddress", S: addr}, {Name: "LibCode", S: code}}}
+			libPath = sg.PickOf(r, []string{"defs", "./defs", "sub/defs", "defs.v2"})
+			root.Props = append(root.Props, sg.Prop{Name: "shipTo", S: &sg.Schema{Ref: libPath + "#/$defs/LibAddress", Target: addr}},
+				sg.Prop{Name: "libcode", S: &sg.Schema{Ref: libPath + "#/$defs/LibCode", Target: code}})
+			if r.Chance(0.5) {
+				root.Props = append(root.Props, sg.Prop{Name: "wholeLib", S: &sg.Schema{Ref: libPath, Target: lib}})
+			}
+		}
 		// the output must depend on the id, so that a lost id spelling is visible
-		j := &job{root: root, opts: append(RandArgs(r, nil), "--schema-root-type", "https://example.com/spell=SpellRoot")}
+		j := &job{root: root, lib: lib, libPath: libPath, opts: append(RandArgs(r, nil), "--schema-root-type", "https://example.com/spell=SpellRoot")}
 		// base spelling first, then a sample of combinations (thorough: more)
 		j.sps = append(j.sps, spelling{format: "json", defs: "$defs", ptr: "#/$defs/"})
 		k := ctx.N(7, 15)
@@ -206,7 +225,11 @@ func c13(ctx *Ctx) (*Outcome, error) {
 			data := renderSpelling(respell(base, sp, true), sp)
 			args := append([]string{"-p", "spell", "-o", "out.go", "--resolve-extension", ".json", "--resolve-extension", ".yaml"}, j.opts...)
 			args = append(args, "root"+ext)
-			cr := cli.Run(ctx.Env, &cli.Inv{Files: []batch.File{{Path: "root" + ext, Data: data}}, Args: args})
+			files := []batch.File{{Path: "root" + ext, Data: data}}
+			if j.lib != nil {
+				files = append(files, batch.File{Path: filepath.Clean(j.libPath) + ext, Data: renderSpelling(respell(j.lib.ToJSON(), sp, true), sp)})
+			}
+			cr := cli.Run(ctx.Env, &cli.Inv{Files: files, Args: args})
 			// the fingerprint must not depend on the input file's own name: only outputs, stdout and exit status are hashed
 			r.fps = append(r.fps, cr.Fingerprint())
 			r.dirs = append(r.dirs, cr.Dir)
@@ -251,7 +274,7 @@ func c13(ctx *Ctx) (*Outcome, error) {
 	o.Coverage = map[string]any{
 		"evaluations":         runs,
 		"distinct_nontrivial": len(sigs),
-		"rule":                "random schemas (refs into definitions, untyped subschemas as property/items/additionalProperties, a dependency keyword, property names that look numeric/boolean) rendered in a base spelling and in sampled combinations of {JSON, YAML block, YAML flow, YAML with unquoted keys/scalars} x {$id,id} x {$defs,definitions} x {pointer prefix #/$defs/, #/definitions/, other letter case} x {type string, one-element list} x {{} , true} x {dependentSchemas, dependencies}; the CLI output (bytes, stdout, exit status) of every spelling must equal the base's; distinct_nontrivial = distinct spelling combinations exercised",
+		"rule":                "random schemas (refs into definitions, untyped subschemas as property/items/additionalProperties, a dependency keyword, property names that look numeric/boolean) (a quarter of them with a sibling document referenced without file extension, same format as the root, found through --resolve-extension) rendered in a base spelling and in sampled combinations of {JSON, YAML block, YAML flow, YAML with unquoted keys/scalars} x {$id,id} x {$defs,definitions} x {pointer prefix #/$defs/, #/definitions/, other letter case} x {type string, one-element list} x {{} , true} x {dependentSchemas, dependencies}; the CLI output (bytes, stdout, exit status) of every spelling must equal the base's; distinct_nontrivial = distinct spelling combinations exercised",
 		"samples":             samples,
 		"schemas":             len(jobs),
 		"cli_runs":            runs,
